@@ -246,6 +246,7 @@ Ex(s, env, st, inblock, d) ==
              env |-> Append(env, [n |-> s.n, c |-> NewCellId(r.st), g |-> ~InFn(env)])]
     [] s.t = "block" -> LET r == ExBlock(s.b, env, st, s.ln, d) IN XR(R(r.s, IF r.s = "ok" THEN Null ELSE r.v, r.st), env)
     [] s.t \in {"while", "loop"} -> XR(ExLoop(s, env, st, d, 0), env)
+    [] s.t = "filter" -> XR(OkR(Null, st), env)      \* filters run in the packet loop (FilterMode), not here
     [] s.t = "break" -> XR(R("brk", [lb |-> s.lb], st), env)
     [] s.t = "continue" -> XR(R("cnt", [lb |-> s.lb], st), env)
     [] s.t = "ret" ->
@@ -297,6 +298,9 @@ SS(s, sc) ==
     [] s.t = "loop" -> [def |-> {}, faults |-> SBlock(s.b, [sc EXCEPT !.loops = sc.loops \cup {"", s.lb}])]
     [] s.t \in {"break", "continue"} ->
          [def |-> {}, faults |-> IF sc.loops = {} THEN {"break"} ELSE IF s.lb \notin sc.loops THEN {"label"} ELSE {}]
+    [] s.t = "filter" ->     \* @ pattern { action }: the action is not a function body
+         [def |-> {}, faults |-> (IF s.pat.t = "none" THEN {} ELSE SE(s.pat, sc))
+                                 \cup SBlock(s.act, [sc EXCEPT !.loops = {}, !.infn = FALSE])]
     [] s.t = "ret" -> [def |-> {}, faults |-> (IF sc.infn THEN {} ELSE {"return"})
                                                \cup (IF s.e.t = "none" THEN {} ELSE SE(s.e, sc))]
 StaticFaults(prog) == SBlock(prog, [names |-> PredefNames, loops |-> {}, infn |-> FALSE])
